@@ -18,23 +18,31 @@ THEOREMS = ['C15_components_safe', 'C15_cd_safe', 'C15_path_inside_root', 'C15_c
             'C15_url_path_inside_root', 'C15_url_ok_of_url', 'C15_session_path_inside_root', 'C15_request_name_inside_root',
             'C15_placed_inside', 'C15_makedirs_inside_root', 'C15_extra_resource_inside_root', 'C15_symlink_inside_root']
 TRUSTED = [
-    'hand-written model Model/Path.v of wpull/path.py and the file-name decisions of wpull/writer.py, tied by the vm_compute '
-    'correspondence of this run',
-    'urllib.parse.urlsplit is library code: the model takes the attributes path.py reads (scheme, hostname, port, path, query) and '
-    'url.endswith("/") as independent inputs; the harness obtains them from the real urlsplit',
-    'the implementation driver wraps wpull.path.safe_filename / hashlib only to RECORD the sha1 and str.lower/upper calls '
-    '(the original functions compute every result)',
+    'hand-written models Model/Path.v (wpull/path.py) and Model/PathWriter.v (urllib.parse.urlsplit + SplitResult.hostname/.port of '
+    'CPython 3.12; wpull/writer.py file-writer sessions; processor/ftp.py _make_symlink), tied by the vm_compute correspondence of this run',
+    'urlsplit is library code modelled concretely for the interpreter in the sandbox (3.12): the model is compared with the real function '
+    'on arbitrary strings in every run; its two checks that can only raise (_checknetloc NFKC test, _check_bracketed_host) are '
+    'unconstrained oracles answered by the real functions (recorded by wrapping them; the originals still decide)',
+    'the implementation driver wraps wpull.path.safe_filename / hashlib only to RECORD the sha1 and str.lower/upper calls, and '
+    'os.path.isfile/isdir/exists, os.makedirs, open (in wpull.writer) and os.symlink only to RECORD their arguments '
+    '(the original functions compute every result; os.symlink is not executed)',
+    'HTMLReader/CSSReader.is_response and the FTP restart values enter the session model as unconstrained booleans (recorded from the real calls)',
     'os_type is "unix" or "windows": checked on every run by reading the assignment in application/tasks/writer.py (ast)',
 ]
 ASSUMPTIONS = [
-    'hashlib.sha1(b).hexdigest() is 40 characters from 0-9a-f (sampled on every recorded call)',
-    'str.lower / str.upper map a string character by character to non-empty pieces, and a piece contains a control character, '
-    '".", "/" or "\\" only when it is that character itself (per-code-point fact checked exhaustively over all 0x110000 code points '
-    'of the running interpreter on every run; piecewise structure sampled on the generated names)',
-    'the index (default page) name is not empty; urlsplit(url).scheme is not empty when protocol directories are on; '
-    'urlsplit(url).hostname is None or non-empty (checked on every generated URL)',
-    'the download root is a directory path no prefix of which is a regular file (otherwise anti_clobber_dir_path renames a '
-    'component of the user-supplied prefix itself)',
+    'ORACLE sha1: hashlib.sha1(b).hexdigest() is 40 characters from 0-9a-f (sampled on every recorded call)',
+    'ORACLE case tables: str.lower / str.upper map a string character by character to non-empty pieces, and a piece contains a control '
+    'character, ".", "/" or "\\" only when it is that character itself (per-code-point fact checked exhaustively over all 0x110000 code '
+    'points of the running interpreter on every run; piecewise structure sampled on the generated names)',
+    'the index (default page) name is not empty',
+    'when protocol directories are on, url_info.url starts with "http:", "https:" or "ftp:" (what URLInfo.parse produces for the schemes '
+    'wpull downloads - property C10; checked on every generated URL). No other fact about urlsplit is assumed any more: the hostname / '
+    'scheme hypotheses of C15_components_safe are proved from the urlsplit model (C15_url_ok_of_url)',
+    'root_clean: ".", the all-slash paths and the prefixes of the normalised download root are not regular files (PathNamer.__init__ '
+    'refuses a root that is a file; a regular file ABOVE the root would make anti_clobber_dir_path append ".d" to a component of the '
+    'user-supplied prefix itself). Only the session theorems need it',
+    'suffixes given to extra_resource_path are "tame" (no separator / control character, not only dots): true of every caller in the tree '
+    '(".youtube-dl", ".snapshot.<type>", "dummy")',
 ]
 
 # ---------------------------------------------------------------------------
@@ -136,7 +144,11 @@ EXT_VALUES = ['..', '.', '...', 'a.txt', '%2E%2E', '%2e%2e', '%2e%2e%2fetc', '..
               '.hidden', '~', 'x' * 300, 'A%e2%82%ac.txt', 'CON', 'a.', 'a%20']
 CD_KEYS = ['filename', 'filename', 'filename', 'FILENAME', 'FileName', 'fİlename', 'fılename', 'filename*', 'file name', 'name',
            'xfilename', 'filenamefilename', 'filenam']
-CD_WS = ['', '', ' ', '  ', '\t', '\n', ' \n ', '\x0b', '\x1c', '\x85', '\xa0', '\u2003', '\u3000', '\r\n']
+CD_WS = ['', '', ' ', '  ', '\t', '\n', ' \n ', '\x0b', '\x1c', '\x85', '\xa0', '\u2003', '\u3000', '\r\n', '\r\n ', '\r\n\t', '\n ']
+CD_HEADS = ['attachment; ', 'attachment;', 'inline; ', '', ' ', 'attachment; filename; ', 'attachment; filename =\n', 'attachment; name=x; ',
+            'attachment; size=3; ', 'attachment;\r\n ', 'attachment;\r\n\t', 'form-data; name="f"; ', 'attachment; a=b; c="d;e"; ', 'ATTACHMENT ; ']
+CD_TAILS = ['', '', '', '; size=3', ' ', '\n', '\nfilename=evil', '; filename=second', ' \t', '\x0b',
+            '; creation-date="Wed, 12 Feb 1997 16:29:51 -0500"', '; size=3; x=y', ';\r\n size=3', '\r\n x']
 
 
 def gen_cd(r):
@@ -161,8 +173,7 @@ def gen_cd(r):
         val = '"%s\\"' % name
     else:
         val = name
-    head = r.choice(['attachment; ', 'attachment;', 'inline; ', '', ' ', 'attachment; filename; ', 'attachment; filename =\n',
-                     'attachment; name=x; '])
+    head = r.choice(CD_HEADS)
     if r.random() < 0.12:
         # RFC 5987/6266 extended parameter  filename*=charset'lang'value  (alone, or with a plain fallback before/after)
         ext = "filename*%s=%s%s'%s'%s" % (r.choice(['', '', ' ']), r.choice(['', '', ' ']),
@@ -170,7 +181,7 @@ def gen_cd(r):
                                            r.choice(EXT_VALUES))
         plain = 'filename=' + val
         return head + r.choice([ext, ext, plain + '; ' + ext, ext + '; ' + plain, ext + ';', ext + ' '])
-    tail = r.choice(['', '', '', '; size=3', ' ', '\n', '\nfilename=evil', '; filename=second', ' \t', '\x0b'])
+    tail = r.choice(CD_TAILS)
     hdr = head + r.choice(CD_KEYS) + r.choice(CD_WS) + '=' + r.choice(CD_WS) + val + tail
     if r.random() < 0.1:
         cps = list(hdr)
@@ -240,6 +251,46 @@ def gen_sess_case(r):
             'mode': 'parse', 'writer': r.choice(SESS_WRITERS), 'flags': fl, 'code': code, 'header': None if h is None else L(h),
             'ctype': r.choice(SESS_CTYPES), 'variant': variant, 'suffix': L(r.choice(SESS_SUFFIXES)), 'link': L(r.choice(SESS_LINKS)),
             'restart': r.choice([None, 0, 5, 5]), 'fuel': 8}
+
+
+def cd_forms(h):
+    """which parts of the Content-Disposition grammar a generated header exercises (measured, for the evidence)"""
+    import re as _re
+    if h is None:
+        return ['absent']
+    if h == '':
+        return ['empty']
+    out = []
+    m = _re.search(r'filename\s*=\s*(.+)', h, _re.IGNORECASE)
+    if _re.search(r'filename\*\s*=', h, _re.IGNORECASE):
+        out.append('extended-filename*')
+        if m:
+            out.append('extended+plain')
+    if m:
+        v = m.group(1)
+        if v[0] == '"':
+            out.append('quoted-double' if _re.match(r'(.)(.+)\1', v) else 'quote-unterminated')
+        elif v[0] == "'":
+            out.append('quoted-single' if _re.match(r'(.)(.+)\1', v) else 'quote-unterminated')
+        else:
+            out.append('unquoted-token')
+        if '\\"' in v:
+            out.append('escaped-quote')
+    elif not out:
+        out.append('no-filename-parameter')
+    if _re.search(r'\r?\n[ \t]', h):
+        out.append('folded-whitespace')
+    if _re.search(r'filename\*?\s+=|filename\*?\s*=\s+\S', h, _re.IGNORECASE):
+        out.append('whitespace-around-equals')
+    if h.count(';') >= 2:
+        out.append('multiple-parameters')
+    if len(_re.findall(r'filename\s*=', h, _re.IGNORECASE)) >= 2:
+        out.append('filename-twice')
+    if _re.search(r'filename', h, _re.IGNORECASE) and 'filename' not in h:
+        out.append('key-case-variant')
+    if any(ord(ch) > 127 for ch in h):
+        out.append('non-ascii')
+    return out
 
 
 OLD_NAMES = ['/tmp/dl/h/a/f.txt', 'f.txt', '/f', 'a//b', 'dir/', 'out/example.com/index.html', '', '//x', 'a/b/', './f', '///',
@@ -364,8 +415,9 @@ def coq_case(case, res):
             items.append('opt_str_eqb (makedirs_arg (fs_exists %s) %s) %s' % (tab, cstr(res['ok'][1]), copt(mk, cstr)))
         items.append('opt_str_eqb (extra_resource_path %s %s) %s' % (cstr(final), cstr(case['suffix']), copt(res['extra'], cstr)))
         sym = res['symlink']
-        symexp = '(Ok %s)' % copt(sym['ok'], cstr) if 'ok' in sym else '(Err %s)' % sym['err']
-        items.append('res_opt_eqb (symlink_path %s %s %s %s) %s' % (orc, cfgs, cstr(final), cstr(case['link']), symexp))
+        if res.get('link_parsed') is not None:
+            symexp = '(Ok %s)' % copt(sym['ok'], cstr) if 'ok' in sym else '(Err %s)' % sym['err']
+            items.append('res_opt_eqb (symlink_path %s %s %s %s) %s' % (orc, cfgs, cstr(final), cstr(res['link_parsed']), symexp))
         return '(' + lets + ' && '.join(items) + ')' 
     if k == 'cd':
         return 'res_eqb (rename_with_content_disposition %s %s %s %s %s) %s' % (
@@ -733,12 +785,16 @@ def correspondence(ctx):
                 sha_bad += 1
         if c['kind'] == 'url' and res.get('parts') and c['mode'] == 'parse':
             p = res['parts']
-            if not p['scheme'] or p['hostname'] == [] or p['hostname'] is None:
+            nu = ''.join(map(chr, res['norm_url']))
+            if not p['scheme'] or p['hostname'] == [] or p['hostname'] is None or not nu.startswith(('http:', 'https:', 'ftp:')):
                 hyp_bad += 1
                 if hyp_bad <= 3:
                     disagreements.append({'note': 'assumption failed: URLInfo.parse(u).url splits to an empty scheme/hostname',
                                           'url': c['url'], 'parts': p})
     oracle['sha1_calls_checked'] = sha_n
+    oracle['urlsplit_model_compared_on'] = sum(1 for c, res in zip(cases, results) if c['kind'] in ('split', 'url') and 'skip' not in res)
+    oracle['checknetloc_calls_recorded'] = sum(len(res.get('oracles', {}).get('netloc', [])) for res in results)
+    oracle['check_bracketed_host_calls_recorded'] = sum(len(res.get('oracles', {}).get('bracket', [])) for res in results)
     if sha_bad:
         disagreements.append({'note': 'assumption failed: sha1 hexdigest shape', 'count': sha_bad})
     # ---- model vs implementation ---------------------------------------------
@@ -782,11 +838,49 @@ def correspondence(ctx):
         elif c['kind'] == 'cd':
             if res['ok'] != c['old']:
                 nontriv.add((tuple(sorted((k, str(v)) for k, v in c['cfg'].items())), tuple(c['header'] or [])))
+    T = lambda cps: ''.join(map(chr, cps))          # noqa: E731
+    for c, res in zip(cases, results):
+        if c['kind'] in ('cd', 'sess'):
+            h = c.get('header')
+            for form in cd_forms(None if h is None else T(h)):
+                k = 'cd_form:' + form
+                dist[k] = dist.get(k, 0) + 1
+        if c['kind'] == 'sess' and 'skip' not in res:
+            for k in ('writer:' + c['writer'], 'tree:' + c['variant'],
+                      'sess_out:' + (res['err'] if 'err' in res else res['ok'][0]),
+                      'sess_flags:' + ('+'.join(x for x in ('cont', 'trust', 'cd', 'adjust') if c['flags'][x]) or 'none')):
+                dist[k] = dist.get(k, 0) + 1
+            fin = T(res['final']) if res.get('final') else ''
+            n0 = T(res['name0']) if res.get('name0') else ''
+            for tag, hit in (('anti-clobber .f', n0.endswith('.f') and c['variant'] in ('dir', 'dirf')),
+                             ('anti-clobber .d', '.d/' in n0 and c['variant'].startswith('prefixfile')),
+                             ('anti-clobber .N', c['writer'] == 'anticlobber' and n0[-2:] in ('.1', '.2', '.3')),
+                             ('renamed-by-response', bool(fin) and fin != n0),
+                             ('continue-requested', bool(res.get('cont'))),
+                             ('makedirs-called', bool(res.get('makedirs'))),
+                             ('symlink-created', bool(res.get('symlink', {}).get('ok')))):
+                if hit:
+                    dist['sess:' + tag] = dist.get('sess:' + tag, 0) + 1
+            symp = T(res['symlink']['ok']) if res.get('symlink', {}).get('ok') else ''
+            sym_changed = bool(symp) and res.get('link_parsed') is not None and symp.rsplit('/', 1)[-1] != T(res['link_parsed'])
+            if sym_changed:
+                dist['sess:symlink-name-sanitised'] = dist.get('sess:symlink-name-sanitised', 0) + 1
+            if fin and (fin != n0 or '.d/' in n0 or n0.endswith(('.f', '.1', '.2', '.3')) or sym_changed):
+                nontriv.add(('sess', tuple(sorted((k, str(v)) for k, v in c['cfg'].items())), T(c['url']), c['writer'], c['variant'],
+                             tuple(sorted(c['flags'].items())), T(c['link'])))
+        if c['kind'] == 'split':
+            k = 'split_scheme:' + ('none' if 'parts' in res and not res['parts']['scheme'] else 'raises' if 'err' in res else 'some')
+            dist[k] = dist.get(k, 0) + 1
     flagsets = {(c['cfg']['use_dir'], c['cfg']['protocol'], c['cfg']['hostname'], c['cfg']['no_control'], c['cfg']['ascii_only'],
                  c['cfg']['os_type'], c['cfg']['case']) for c in cases if 'cfg' in c}
     dist['distinct_flag_combinations'] = len(flagsets)
     ctx.c15 = (cases, results)
-    pick = [i for i in (0, len(cases) // 3, 2 * len(cases) // 3) if i < len(cases)]
+    pick = []
+    for kind in ('url', 'cd', 'sess', 'split'):
+        for i, c in enumerate(cases):
+            if c['kind'] == kind and 'skip' not in results[i]:
+                pick.append(i)
+                break
     return {
         'evaluations': len(live),
         'distinct_nontrivial': len(nontriv),
@@ -794,11 +888,19 @@ def correspondence(ctx):
                 'combinations twice, then random configurations; URLs rich in %2F %2E %00 %5C, dots, backslashes, long and non-ASCII '
                 'names, IPv6, ports, userinfo), arbitrary text as url_info.url (malformed stream), (configuration, '
                 'Content-Disposition header, old file name) triples through the real writer session, _compute_filename of the plain '
-                'and anti-clobber sessions on scratch directory trees, and the library functions the model re-implements; '
+                'and anti-clobber sessions on scratch directory trees, full process_request/process_response runs of the four real '
+                'file-writer session classes in scratch trees built around the chosen name (existing file, .1/.2, directory, file '
+                'in place of a parent directory) with the real _add_listing_links/_make_symlink on a parsed LIST line, '
+                'and the library functions the model re-implements; '
                 'non-trivial = distinct (configuration, URL) whose chosen name is not a literal suffix of the URL (something was '
-                'escaped, unquoted, truncated, case-folded or defaulted) or distinct (configuration, header) that renamed the file',
+                'escaped, unquoted, truncated, case-folded or defaulted), distinct (configuration, header) that renamed the file, or '
+                'distinct session cases in which anti-clobber renaming (.f/.d/.N), a response-time rename or symlink-name '
+                'sanitising acted; plus urlsplit on arbitrary strings (split cases, never counted as non-trivial)',
         'samples': [{'kind': cases[i]['kind'], 'input': ''.join(map(chr, cases[i].get('url') or cases[i].get('header') or []))[:120],
-                     'cfg': cases[i].get('cfg')} for i in pick],
+                     'cfg': cases[i].get('cfg'),
+                     'impl': ''.join(map(chr, results[i].get('final') or (results[i].get('ok') if isinstance(results[i].get('ok'), list)
+                                                                          and all(isinstance(x, int) for x in results[i]['ok']) else [])
+                                              or []))[:160]} for i in pick],
         'input_distribution': dist,
         'oracle_samples': oracle,
         'disagreements': disagreements,
@@ -811,8 +913,18 @@ def search(ctx, disagreements):
     volume, no Coq in the loop, plus a small-scope enumeration of segment pairs
     under every flag combination."""
     r = common.rng('c15-search')
-    cases = gen_cases(r, 15000, 5000, 7000, 0)
+    cases = gen_cases(r, 15000, 5000, 7000, 0, 0, 2500)
     flagcfgs = all_flag_cfgs(r)
+    # the symlink / trust-server-names / Content-Disposition paths of the writer session under every flag combination
+    for cfg in flagcfgs[::3]:
+        for link in ('../../x', '/abs', '..', 'a/b', 'a\\b', 'a\x01'):
+            cases.append({'kind': 'sess', 'cfg': cfg, 'root': L('out'), 'url': L('ftp://h/d/'), 'url2': None, 'mode': 'parse',
+                          'writer': 'overwrite', 'flags': {'cont': False, 'trust': False, 'cd': False, 'adjust': False}, 'code': 200,
+                          'header': None, 'ctype': None, 'variant': 'empty', 'suffix': L('.x'), 'link': L(link), 'restart': None, 'fuel': 8})
+        cases.append({'kind': 'sess', 'cfg': cfg, 'root': L('out'), 'url': L('http://h/a'), 'url2': L('http://h/b/%2E%2E%5C..'), 'mode': 'parse',
+                      'writer': 'anticlobber', 'flags': {'cont': False, 'trust': True, 'cd': True, 'adjust': True}, 'code': 200,
+                      'header': L('attachment; filename="../../x"'), 'ctype': 'text/html', 'variant': 'file', 'suffix': L('.x'),
+                      'link': L('l'), 'restart': None, 'fuel': 8})
     core = ['.', '..', '%2E%2E', '%2F', '..%2F', '%5C', '\\', 'a.', ' ', '%00', 'x' * 30, 'é', 'a']
     for cfg in flagcfgs:
         for scheme in ('http', 'ftp'):
@@ -835,17 +947,30 @@ def replay(ctx, data):
     return property_on_impl(case, res) is not None
 
 
-LEVEL_TEXT = ('Coq theorems: for EVERY configuration (directory / cut / protocol / host directories, unix or windows mode, control '
-              'and ASCII restriction, case folding, length limit, non-empty index name), every result of urlsplit (all component '
-              'strings, not only those a parser produces), every Content-Disposition header string and every oracle satisfying the '
-              'stated facts, each path component chosen below the download root is non-empty, not "." or "..", free of "/" (and of '
-              '"\\" in windows mode) and of control characters unless that restriction is disabled; the joined path is the root '
-              'followed by exactly these components; the Content-Disposition name replaces only the last component; anti-clobber '
-              'renaming keeps components safe. Closed under the global context. The model is hand-written and tied to the code on '
-              'every run by evaluating it inside Coq against the real PathNamer and writer session.')
-LEVEL_NOTE = ('Trusted: Coq kernel + vm_compute; the hand-written model Model/Path.v and the correspondence harness; urlsplit as a '
-              'black box whose attribute values are the model inputs; sha1 hexdigest shape (sampled) and Unicode case-mapping safety '
-              '(exhaustive over all code points per run); os_type in {unix, windows} (read from tasks/writer.py each run). '
-              'With no_control disabled by the user NUL and other control characters pass through by design.')
-TECHNIQUE = ('Coq proof (structural induction over strings/byte strings, UTF-8 decoding relation) for all inputs and configurations; '
-             'vm_compute correspondence with table-driven oracle instances recorded from the real library')
+LEVEL_TEXT = ('Coq theorems, closed under the global context, for ALL inputs: (1) PathNamer: for every configuration (directory / cut / '
+              'protocol / host directories, unix or windows mode, control and ASCII restriction, case folding, length limit, non-empty '
+              'index) and every URL STRING (urlsplit modelled concretely) or every urlsplit result, every component chosen below the '
+              'download root is non-empty, not "." or "..", free of "/" (and "\\" in windows mode) and of control characters unless that '
+              'restriction is disabled, and the joined path is the root followed by exactly these components (FTP percent-decoding, '
+              '.listing names included); (2) every Content-Disposition header string renames only the last component, to a safe name; '
+              '(3) writer sessions: for each of the four file-writer session classes, every option combination (continue, '
+              'trust_server_names, content_disposition, adjust_extension), every response and every file-system state, the path given '
+              'to open() and the directory given to os.makedirs are lexically inside the root after the ".f" / ".d" / ".N" anti-clobber '
+              'renaming, last-response and Content-Disposition renaming and ".html"/".css" extension; the same for extra_resource_path '
+              'and for the FTP symlink created from a server-supplied listing name (after fix 20746d1). The models are hand-written and '
+              'tied to the code on every run by evaluating them inside Coq against the real PathNamer, urlsplit, writer sessions and '
+              '_make_symlink on generated inputs.')
+LEVEL_NOTE = ('Trusted: Coq kernel + vm_compute; the hand-written models and the correspondence harness; sha1 hexdigest shape (sampled) and '
+              'Unicode case-mapping safety (exhaustive over all code points per run); os_type in {unix, windows} (read from '
+              'tasks/writer.py each run). "Inside" is lexical (posixpath.normpath component stack): symlinks already present in the '
+              'tree, and the TARGET of a symlink created with --retr-symlinks=off (server content, not a location), are outside the '
+              'statement. Writer modes in which the USER chooses the path are outside the property: -O/--output-document '
+              '(SingleDocumentWriter), --delete-after (NullWriter), WARC/database/log files, and the tmp-wpull-* temporary files that '
+              'tempfile names inside the prefix. With no_control disabled by the user NUL and other control characters pass through by '
+              'design. Windows reserved device names (CON, NUL, COM1 ...) are not named by the property text and wpull does not treat '
+              'them: not claimed, no alarm raised; a trailing dot/space in windows mode IS escaped by the code and the model follows it, '
+              'but no theorem is stated about it. BaseFileWriterSession.save_headers would write filename + "-new" (covered as a tame '
+              'suffix) but the function itself is broken in the tree (open("wb")), outside this property.')
+TECHNIQUE = ('Coq proof (structural induction over strings/byte strings, UTF-8 decoding relation, normpath component-stack invariant) for '
+             'all inputs, configurations and file-system states; vm_compute correspondence with table-driven oracle instances recorded '
+             'from the real library and the real file system')
